@@ -36,9 +36,45 @@ pub struct Cx<'tcx> {
 }
 
 impl<'tcx> Cx<'tcx> {
-    pub fn path(&self, did: DefId) -> String {
+    fn raw_path(&self, did: DefId) -> String {
         let s = with_no_visible_paths!(with_crate_prefix!(with_no_trimmed_paths!(self.tcx.def_path_str(did))));
         fix_crate(s, &self.krate)
+    }
+    /// Canonical, crate-independent path of a definition. Associated items of impls are
+    /// printed as `<Self as Trait>::name` / `AdtPath::name`; items nested in bodies (closures,
+    /// inner fns) as `<path of the enclosing fn>::<name>`.
+    pub fn path(&self, did: DefId) -> String {
+        let tcx = self.tcx;
+        let dk = tcx.def_kind(did);
+        if dk.is_assoc() {
+            if let Some(impl_did) = tcx.impl_of_assoc(did) {
+                let self_ty = tcx.type_of(impl_did).instantiate_identity().skip_norm_wip();
+                let name = tcx.item_name(did);
+                if let Some(tr) = tcx.impl_opt_trait_ref(impl_did) {
+                    let tr = tr.instantiate_identity().skip_norm_wip();
+                    return format!("<{} as {}>::{}", self.ty(self_ty), self.raw_path(tr.def_id), name);
+                }
+                return match self_ty.kind() {
+                    ty::Adt(def, _) => format!("{}::{}", self.raw_path(def.did()), name),
+                    _ => format!("<{}>::{}", self.ty(self_ty), name),
+                };
+            }
+            return self.raw_path(did);
+        }
+        if let Some(parent) = tcx.opt_parent(did) {
+            let pk = tcx.def_kind(parent);
+            if matches!(pk, DefKind::Fn | DefKind::AssocFn | DefKind::Closure) {
+                let key = tcx.def_key(did);
+                return format!("{}::{}", self.path(parent), key.disambiguated_data.as_sym(true));
+            }
+            if let DefKind::Ctor(..) = dk {
+                return self.path(parent);
+            }
+            if matches!(dk, DefKind::Variant) {
+                return format!("{}::{}", self.path(parent), tcx.item_name(did));
+            }
+        }
+        self.raw_path(did)
     }
     pub fn ty(&self, t: Ty<'tcx>) -> String {
         let s = with_no_visible_paths!(with_crate_prefix!(with_no_trimmed_paths!(t.to_string())));
